@@ -19,7 +19,7 @@ func RunPath(p *Program, s *smt.Solver, entry *ssa.Function, prefix []Decision, 
 		pcSet: map[T]bool{}, prefix: prefix,
 		globals: map[*ssa.Global]*Value{}, nameCnt: map[string]int{},
 		mutexes: map[*Value]*mutexState{}, wgs: map[*Value]*wgState{}, pools: map[*Value]*poolState{}, onces: map[*Value]bool{},
-		doneCh:   make(chan struct{}, 1), arrObjs: map[*Value]*ArrObj{},
+		doneCh: make(chan struct{}, 1), arrObjs: map[*Value]*ArrObj{},
 		mapOrder: opt.MapOrders,
 		// the virtual clock starts at a realistic wall-clock reading (ns since 1970), far from the zero time.Time
 		now: 1_700_000_000_000_000_000,
